@@ -124,8 +124,10 @@ func TestC02_ByteBufferTransfers(t *testing.T) {
 		}
 		rt.Repeat(map[string]func(*rapid.T){
 			"append": func(rt *rapid.T) {
-				if asyncW {
-					rt.Skip("write in flight owns the buffer")
+				// (also while an AsyncWriteTo is in flight: the operation holds the slice it was given, bytes queued behind
+				// it wait for the next flush and must still be there when it completes)
+				if asyncW && rapid.IntRange(0, 2).Draw(rt, "appendInFlight") != 0 {
+					rt.Skip("not this time")
 				}
 				k := rapid.SampledFrom([]int{1, 7, 500, 4096, 70001, 300000, 1 << 20}).Draw(rt, "k")
 				if wb.ReadLen()+k > 4<<20 {
@@ -166,10 +168,10 @@ func TestC02_ByteBufferTransfers(t *testing.T) {
 					if err != nil {
 						fail("AsyncWriteTo on a healthy connection: %v (n=%d)", err, n)
 					}
-					if n != before || wb.ReadLen() != 0 {
-						fail("AsyncWriteTo of %d bytes reported %d and left %d in the read area", before, n, wb.ReadLen())
-					}
 					reported += int64(n)
+					if n != before || int64(wb.ReadLen()) != appended-reported {
+						fail("AsyncWriteTo of %d bytes reported %d and left %d bytes in the read area, %d had been queued behind it while it was in flight", before, n, wb.ReadLen(), appended-reported)
+					}
 				})
 				inCall = false
 			},
